@@ -324,6 +324,12 @@ QualSeq(b, d) ==
          ELSE IF d \in {"postgresql", "sqlite"} THEN setq \o joinq \o whrq \o ordq \o retq
          ELSE joinq \o setq \o whrq \o (IF d = "mysql" THEN ordq ELSE <<>>)
 
+\* The sources of one statement level are addressed by their exposed names (alias, else table name; un-aliased subqueries receive automatic
+\* sqN aliases): the names are pairwise distinct and every qualifier written at that level is one of them.
+ExposedOK(names, quals) == /\ \A i, j \in DOMAIN names : i # j => names[i] # names[j]
+                           /\ \A k \in DOMAIN quals : \E i \in DOMAIN names : names[i] = quals[k]
+ExposedWhy(names, quals) == IF \E i, j \in DOMAIN names : i # j /\ names[i] = names[j] THEN "two-sources-share-a-name" ELSE "qualifier-names-no-source"
+
 (***************************************************************************)
 (* C12: where aliases are printed                                           *)
 (***************************************************************************)
